@@ -2697,6 +2697,14 @@ class Signature(object):
                 
         :return bool: 
         """
+        known_key = (self._public_key, self.x, self.y)
+        verified = self._verify(txid, public_key)
+        if not verified and public_key is not None:
+            # A key that does not verify is not this signature's key: keep what was known before
+            self._public_key, self.x, self.y = known_key
+        return verified
+
+    def _verify(self, txid=None, public_key=None):
         if txid is not None:
             self.txid = to_hexstring(txid)
         if public_key is not None:
